@@ -37,7 +37,7 @@ _TOKEN = re.compile(
     r"\"(?:[^\"\\]|\\.)*\"|'(?:[^'\\]|\\[^u]|\\u\{[^}]*\})'|//[^\n]*|/\*.*?\*/|[A-Za-z_][A-Za-z0-9_]*|-?[0-9]+|\.\.|\s+|.",
     re.S,
 )
-SUBST = ["~", "|", "?", "*", "+", "{", "}", "(", ")", "[", "]", "=", "_", "@", "$", "!", "&", "^", "#t =", "..", ",", "1",
+SUBST = ["-0", "-00", "-01", "00", "99999999999", "PEEK[-0..]", "PEEK[-01..02]", "~", "|", "?", "*", "+", "{", "}", "(", ")", "[", "]", "=", "_", "@", "$", "!", "&", "^", "#t =", "..", ",", "1",
          '"s"', "'c'", "x", "PUSH", "PEEK", "POP", "{2}", "{,}", "'a'..'b'", "/*", "*/", "//", "///", "//!", "\\", "#"]
 
 
